@@ -143,7 +143,7 @@ def baselines():
     """One fresh interpreter per document."""
     out = {}
     procs = []
-    env = dict(os.environ, PYTHONPATH='/repo', PYTHONHASHSEED='0')
+    env = dict(os.environ, PYTHONPATH=os.environ.get('VERIF_REPO', '/repo'), PYTHONHASHSEED='0')
     for i in range(1, len(DOCS) + 1):
         procs.append((i, subprocess.Popen([sys.executable, '-c', BASELINE_CODE % dict(verif=common.VERIF), str(i)],
                                           stdout=subprocess.PIPE, stderr=subprocess.PIPE, text=True, env=env)))
